@@ -392,26 +392,37 @@ theorem mathMod_facts (x y : Int) (hy : y ≠ 0) :
 
 /-! ### random -/
 
-theorem mathRandom2_in_range (intn : Int → Int) (hintn : ∀ k, 0 < k → 0 ≤ intn k ∧ intn k < k) (m n : Int)
+theorem mathRandom2_in_range (intn : Int → Int) (hintn : ∀ k, 0 < k → 0 ≤ intn k ∧ intn k < k) (rf : Nat) (m n : Int)
     (hm : -9223372036854775808 ≤ m) (hn : n ≤ 9223372036854775807) (hmn : m ≤ n)
     (hspan : n - m + 1 ≤ 9223372036854775807) :
-    ∃ r, mathRandom2 intn m n = .ok r ∧ m ≤ r ∧ r ≤ n := by
+    ∃ r, mathRandom2 intn rf m n = .ok (.int r) ∧ m ≤ r ∧ r ≤ n := by
   unfold mathRandom2
-  simp only []
-  have hk : wrap64 (wrap64 (n + 1) - m) = n - m + 1 := by unfold wrap64; omega
-  rw [hk, if_neg (by omega)]
+  have hk : wrap64 (wrap64 (n - m) + 1) = n - m + 1 := by unfold wrap64; omega
+  rw [if_neg (by omega), hk, if_pos (by omega)]
   obtain ⟨h1, h2⟩ := hintn (n - m + 1) (by omega)
   refine ⟨_, rfl, ?_, ?_⟩ <;> unfold wrap64 <;> omega
 
-theorem mathRandom2_empty (intn : Int → Int) (m n : Int)
-    (hm : -9223372036854775808 ≤ m) (hm' : m ≤ 9223372036854775807)
-    (hn : -9223372036854775808 ≤ n) (hn' : n ≤ 9223372036854775807) (hmn : n < m)
-    (hspan : m - n ≤ 9223372036854775807) :
-    mathRandom2 intn m n = .error (.luaError "interval is empty") := by
+/-- no guard on the distance any more: `min > max` is compared directly -/
+theorem mathRandom2_empty (intn : Int → Int) (rf : Nat) (m n : Int) (hmn : n < m) :
+    mathRandom2 intn rf m n = .error (.luaError "interval is empty") := by
   unfold mathRandom2
-  simp only []
-  have hk : wrap64 (wrap64 (n + 1) - m) = n - m + 1 := by unfold wrap64; omega
-  rw [hk, if_pos (by omega)]
+  rw [if_pos (by omega)]
+
+/-- a non-empty interval never raises (and never panics), whatever its width: the ordinary path is taken exactly
+    when the width `n - m + 1` fits an int, the float64 path otherwise -/
+theorem mathRandom2_total (intn : Int → Int) (rf : Nat) (m n : Int)
+    (hm : -9223372036854775808 ≤ m) (hn : n ≤ 9223372036854775807) (hmn : m ≤ n) :
+    (n - m + 1 ≤ 9223372036854775807 → ∃ r, mathRandom2 intn rf m n = .ok (.int r)) ∧
+    (9223372036854775807 < n - m + 1 → mathRandom2 intn rf m n = .ok (.num (mathRandom2Wide rf m n))) := by
+  unfold mathRandom2
+  constructor
+  · intro hspan
+    have hk : wrap64 (wrap64 (n - m) + 1) = n - m + 1 := by unfold wrap64; omega
+    rw [if_neg (by omega), hk, if_pos (by omega)]
+    exact ⟨_, rfl⟩
+  · intro hspan
+    have hk : ¬ (wrap64 (wrap64 (n - m) + 1) > 0) := by unfold wrap64; omega
+    rw [if_neg (by omega), if_neg hk]
 
 theorem mathRandom1_in_range (intn : Int → Int) (hintn : ∀ k, 0 < k → 0 ≤ intn k ∧ intn k < k) (n : Int)
     (h1 : 1 ≤ n) (hn : n ≤ 9223372036854775807) :
